@@ -45,6 +45,20 @@ class Ctx:
     def model(self, lines, ref=False):
         return C.run_driver(lines, driver=self.ref_driver() if ref else self.driver)
 
+    def tables_changed(self, sections):
+        """do the tables regenerated from the working tree differ from the proved reference copies?
+        (then the regenerated model is not known to be correct and replays use the reference driver)"""
+        import translate
+        for sec in sections:
+            try:
+                fname, text, br = translate.SECTIONS[sec]()
+                with open(os.path.join(C.LEAN, "Reference", fname)) as rf:
+                    if br or rf.read() != text:
+                        return True
+            except Exception:
+                return True
+        return False
+
     def ref_driver(self):
         """driver built from the committed *reference* tables (lean/Reference), i.e. the
         tables the theorems were last proved for; used only by the failing-input search"""
@@ -186,6 +200,15 @@ def main():
     if a.replay:
         with open(a.replay) as f:
             rp = json.load(f)
+        # the model driver must correspond to the CURRENT working tree
+        import translate
+        for sec in mod.SECTIONS:
+            fname, text, br = translate.SECTIONS[sec]()
+            translate.write_if_changed(os.path.join(translate.GEN, fname), text)
+        rc, out, _ = C.lake_build(["driver"])
+        if rc != 0:
+            print("tool failure: model driver does not build")
+            return 2
         res = mod.replay(ctx, rp)
         print(json.dumps(res, indent=1, default=str))
         return 1 if res.get("fails") else 0
@@ -266,6 +289,33 @@ def main():
     except Exception:
         C.eprint(traceback.format_exc())
         broken.append("correspondence run crashed: " + traceback.format_exc().splitlines()[-1])
+
+    # ---- 3b. corpus: concrete inputs on which the property failed under a past (seeded or
+    # genuine) defect; each is re-executed on the current tree through the module's replay()
+    corpus_dir = os.path.join(C.ROOT, "corpus", pid)
+    corpus_n = 0
+    if os.path.isdir(corpus_dir) and hasattr(mod, "replay") and os.path.exists(C.DRIVER):
+        for fn in sorted(os.listdir(corpus_dir)):
+            if not fn.endswith(".json"):
+                continue
+            try:
+                with open(os.path.join(corpus_dir, fn)) as f:
+                    rp = json.load(f)
+                if "failure" not in rp:
+                    continue        # module-specific corpus format, handled by the module itself
+                corpus_n += 1
+                r = mod.replay(ctx, rp)
+                if r.get("fails"):
+                    fs = r.get("failures") or [dict(rp["failure"])]
+                    for f0 in fs[:1]:
+                        f0 = dict(f0)
+                        f0["what"] = "corpus case {}: {}".format(fn, f0.get("what", ""))
+                        failures.append(f0)
+            except Exception:
+                C.eprint(traceback.format_exc())
+                broken.append("corpus case {} could not be replayed: {}".format(
+                    fn, traceback.format_exc().splitlines()[-1]))
+    ctx.notes.append("corpus cases replayed: {}".format(corpus_n))
 
     # ---- 4. decide
     # "implementation output = model output" accuses the code only while the model is proved
